@@ -13,6 +13,7 @@ func Replay(exec Exec, trace []int, logOn bool) *Run {
 		defer r.Close()
 		exec(r)
 	}()
+	GCBetweenRuns()
 	return r
 }
 
